@@ -8,6 +8,7 @@ package main
 import (
 	"fmt"
 	"os"
+	"path/filepath"
 	"reflect"
 	"sort"
 	"strings"
@@ -195,7 +196,9 @@ func callMenu() []callT {
 		}, func(a []interface{}) (string, []string) { return errText(valid.Map(a[0], a[1].(valid.RM))), nil }, nil},
 		{"Url(either group)", func() []interface{} {
 			return []interface{}{"http://h/p?k=&j=&a=1", valid.RM{"k": "either=1", "j": "either=1"}}
-		}, func(a []interface{}) (string, []string) { return errText(valid.Url(a[0].(string), a[1].(valid.RM))), nil }, nil},
+		}, func(a []interface{}) (string, []string) {
+			return errText(valid.Url(a[0].(string), a[1].(valid.RM))), nil
+		}, nil},
 		// a rule list with empty entries, handed over as a slice: the caller's slice stays as it is
 		{"Var(rule slice with empty entries)", func() []interface{} {
 			return []interface{}{7, []string{"required", "", "to=1~3|too big", "", "noeq=7|seven"}}
@@ -285,6 +288,64 @@ func callMenu() []callT {
 	}
 }
 
+// fsPath: one path name that is a file during some calls, a directory during others and absent in between: what a
+// file / dir rule answers is what the file system holds at the time of the call.
+var fsPath = filepath.Join(func() string {
+	if s := os.Getenv("VERIF_SCRATCH"); s != "" {
+		return s
+	}
+	return os.TempDir()
+}(), fmt.Sprintf("c12-path-%d", os.Getpid()))
+
+// extraMenu: calls that are explored in a space of their own (all sequences over them and a few calls of the main menu).
+func extraMenu() []callT {
+	pathCall := func(name, state, rule, want string) callT {
+		return callT{name, func() []interface{} { return []interface{}{fsPath, []string{rule}} },
+			func(a []interface{}) (string, []string) {
+				os.RemoveAll(fsPath)
+				switch state {
+				case "file":
+					os.WriteFile(fsPath, []byte("x"), 0644)
+				case "dir":
+					os.Mkdir(fsPath, 0755)
+				}
+				r := errText(valid.Var(a[0], a[1].([]string)...))
+				os.RemoveAll(fsPath)
+				return r, nil
+			}, func() (string, bool) {
+				if want == "" {
+					return "<nil>", true
+				}
+				return fmt.Sprintf("input %q, explain: %s", fsPath, want), true
+			}}
+	}
+	return []callT{
+		pathCall("Var(path, file) while the path is a file", "file", "file|not-a-file", ""),
+		pathCall("Var(path, file) while the path does not exist", "", "file|not-a-file", "not-a-file"),
+		pathCall("Var(path, file) while the path is a directory", "dir", "file|not-a-file", "not-a-file"),
+		pathCall("Var(path, dir) while the path is a directory", "dir", "dir|not-a-dir", ""),
+		pathCall("Var(path, dir) while the path does not exist", "", "dir|not-a-dir", "not-a-dir"),
+		pathCall("Var(path, dir) while the path is a file", "file", "dir|not-a-dir", "not-a-dir"),
+		// the extractor on messages that hold no explanation at all, and on an empty clause list
+		{"GetOnlyExplainErr(no explanation)", func() []interface{} { return []interface{}{"src is nil"} },
+			func(a []interface{}) (string, []string) {
+				e := valid.GetOnlyExplainErr(a[0].(string))
+				return e, []string{e}
+			}, nil},
+		{"GetOnlyExplainErr(clauses without explanation)", func() []interface{} { return []interface{}{`valid "zz" is not exist; valid "yy" is not exist`} },
+			func(a []interface{}) (string, []string) {
+				e := valid.GetOnlyExplainErr(a[0].(string))
+				return e, []string{e}
+			}, nil},
+		{"GetJoinValidErrStr+GetJoinFieldErr", func() []interface{} { return []interface{}{"Obj", "Field", "in"} },
+			func(a []interface{}) (string, []string) {
+				e1 := valid.GetJoinValidErrStr(a[0].(string), a[1].(string), a[2].(string), valid.ExplainEn, "one")
+				e2 := valid.GetJoinFieldErr(a[0].(string), a[1].(string), "two")
+				return e1 + "\x00" + e2, []string{e1, e2}
+			}, nil},
+	}
+}
+
 // canon makes a result independent of Go map iteration order (group clause order, member order inside a Map group clause).
 func canon(res string) string {
 	if !strings.Contains(res, "explain: they ") {
@@ -340,6 +401,8 @@ func run(c *runner.Ctx) {
 	d := &deleg{inner: valid.NewLRU()}
 	valid.SetStructTypeCache(d)
 	menu := callMenu()
+	nMain := len(menu)
+	menu = append(menu, extraMenu()...)
 	// fresh-state results (scheduler inactive, fresh cache), cross-checked with the model
 	fresh := make([]string, len(menu))
 	for i, cl := range menu {
@@ -522,7 +585,50 @@ func run(c *runner.Ctx) {
 		}
 	}
 
-	n := len(menu)
+	// the calls of the extra menu with five calls of the main menu: every sequence up to length 3 (thorough: 4)
+	{
+		ext := []int{}
+		for i := nMain; i < len(menu); i++ {
+			ext = append(ext, i)
+		}
+		for i, cl := range menu[:nMain] {
+			switch cl.name {
+			case "Struct(T1)", "Struct(T4 groups)", "Var(quoted-fail)", "Map", "Url":
+				ext = append(ext, i)
+			}
+		}
+		maxE := 3
+		if c.Thorough() {
+			maxE = 4
+		}
+		for l := 1; l <= maxE; l++ {
+			c.Space(fmt.Sprintf("file-system-and-extractor-calls/sequences-len%d", l))
+			total := 1
+			for i := 0; i < l; i++ {
+				total *= len(ext)
+			}
+			for x := 0; x < total; x++ {
+				if !c.Take() {
+					continue
+				}
+				seq := make([]int, l)
+				y := x
+				for i := l - 1; i >= 0; i-- {
+					seq[i] = ext[y%len(ext)]
+					y /= len(ext)
+				}
+				bd := 2
+				if l >= 4 {
+					bd = 1
+				}
+				explore(seq, bd)
+			}
+			if c.Expired() {
+				return
+			}
+		}
+	}
+	n := nMain
 	b3, b4 := 2, 1
 	if c.Thorough() {
 		b3, b4 = 2, 2
